@@ -364,6 +364,22 @@ def _unq(s):
     return "".join(out)
 
 
+def expand_includes(text, base, depth=0):
+    out = []
+    for line in text.split("\n"):
+        m = re.match(r"^\s*//@include\s+(\S+)\s*$", line)
+        if m:
+            if depth > 5:
+                raise GenError("include depth")
+            inc = open(os.path.join(base, m.group(1)), encoding="utf-8").read()
+            out.append("// >>> include %s" % m.group(1))
+            out.append(expand_includes(inc, base, depth + 1).rstrip("\n"))
+            out.append("// <<< include %s" % m.group(1))
+        else:
+            out.append(line)
+    return "\n".join(out)
+
+
 def parse_template(text):
     """Split a template into a list of ('text', lineno, line) / ('block', Block) / ('props', ..)."""
     out = []
@@ -487,7 +503,9 @@ def _parse_header(h):
     return parts[0], parts[1:], opts
 
 
-def generate(unit, template_text, repo_root):
+def generate(unit, template_text, repo_root, units_dir=None):
+    if units_dir:
+        template_text = expand_includes(template_text, units_dir)
     parsed, gsubs = parse_template(template_text)
     g = Generated()
     cur_props = []
